@@ -1480,7 +1480,9 @@ func massRemovalProbe(m *meta, rng *rand.Rand, round int) {
 	first.Store(stalled)
 	var mu sync.Mutex
 	got := map[int]int{}
-	c, err := kioshun.New[int, int](kioshun.Config{ShardCount: 1, EvictionPolicy: pol, MaxSize: 0},
+	shards := pick(rng, []int{1, 1, 128, 256}) // one shard: a deep backlog; many shards: every shard's backlog is drained
+	ctx += fmt.Sprintf(" shards=%d", shards)
+	c, err := kioshun.New[int, int](kioshun.Config{ShardCount: shards, EvictionPolicy: pol, MaxSize: 0},
 		kioshun.WithOnRemove(func(k, v int, r kioshun.RemovalReason) {
 			if first.CompareAndSwap(true, false) {
 				<-gate
@@ -1532,7 +1534,7 @@ func massRemovalProbe(m *meta, rng *rand.Rand, round int) {
 	}
 	mu.Unlock()
 	if missing > 0 || dup > 0 {
-		m.violate("C06", fmt.Sprintf("%s: %d entries left one shard (%s); %d of them were never reported to the listener and %d were reported more than once", ctx, n, map[bool]string{true: "Delete while the listener was stalled", false: "one Cleanup sweep"}[stalled], missing, dup), ctx)
+		m.violate("C06", fmt.Sprintf("%s: %d entries left the cache (%s); %d of them were never reported to the listener and %d were reported more than once", ctx, n, map[bool]string{true: "Delete while the listener was stalled", false: "one Cleanup sweep"}[stalled], missing, dup), ctx)
 	}
 	m.count("mass_removal_probes")
 }
